@@ -267,6 +267,27 @@ MANIFEST_TEXT["C10"] = {
     "design_ref": "DESIGN.md section 3 / C10",
 }
 
+PLAN["C02"] = {
+    "pkg": "c02",
+    "tests": [
+        {"name": "TestPersistenceTransparent", "quick": (9600, 16), "thorough": (640000, 16)},
+    ],
+    "budget": {"quick": 600, "thorough": 5400},
+    "rule": SCENARIO_RULE + "Every step carries a drawn 'restart here' bit. Oracle: (a) after every sprint marshal(read(marshal(s))) == "
+            "marshal(s) byte for byte; (b) the same scenario is executed a second time keeping the session object alive throughout, with "
+            "clock/UUID/random sources reset per sprint, and every sprint's events, segments and resulting session JSON must be identical "
+            "to the execution that restarted at the drawn subset of waits. Templates never reference @webhook/@legacy_extra (the two "
+            "allowed differences). Non-trivial = at least one restart followed by a resume that produced more than the received-message "
+            "event; distinct by (assets, trigger, restart mask).",
+    "assumptions": COMMON_ASSUMPTIONS + ["host clock is UTC; templates do not call tz() on engine-created times"],
+}
+MANIFEST_TEXT["C02"] = {
+    "technique": "property-based testing (rapid, stateful): round-trip oracle on the session JSON plus differential execution (restarted vs kept-alive session) under per-sprint reset clock/UUID/random sources",
+    "level_text": "Exploration over crash points by sampling restart masks: every sampled mask gave byte-identical events, segments and session JSON; one listed finding (batch start flag) is classified by trigger and event signature.",
+    "level_note": "Restart points are sampled per wait, not enumerated exhaustively; services are deterministic mocks.",
+    "design_ref": "DESIGN.md section 3 / C02",
+}
+
 # every property without a registered check is listed here with the reason (kept current as checks are added)
 NOT_APPLICABLE = [{"property_id": pid, "reason": "check not built yet in this round (planned in DESIGN.md); nothing is claimed for it"}
                   for pid in ALL_IDS if pid not in PLAN]
